@@ -120,7 +120,7 @@ def run_case(case, ctx):
                 mark = stream.mark()
                 ch[i]
                 judge(ctx, stream, mark, [(lay.segs[t[0]]['start'], 4), t[3]], 'index/' + layk, {'path': p, 'index': i, 'n': n, 'segments': desc})
-                for j in range(t[1], t[2]):
+                for j in list(range(t[1], t[2])) + [k - n for k in range(t[1], t[2])]:
                     mark = stream.mark()
                     ch[j]
                     ctx.count('cached_index_checked')
